@@ -9,6 +9,11 @@
 (declare-fun putPath (Seq_S_primitive_E Str Val Bool) Seq_S_primitive_E)
 (declare-fun putOK (Seq_S_primitive_E Str Val Bool) Bool)
 (declare-fun unsetPath (Seq_S_primitive_E Str) Seq_S_primitive_E)
+; bsonkit.All: the value(s) found at a path with array fan-out, and whether the path fanned out
+(declare-fun allValue (Seq_S_primitive_E Str Bool Bool) Val)
+(declare-fun allMulti (Seq_S_primitive_E Str Bool Bool) Bool)
+(assert (forall ((d Seq_S_primitive_E) (p Str) (c Bool) (m Bool)) (! (=> (wfVal (VDoc d)) (wfVal (allValue d p c m)))
+   :pattern ((allValue d p c m)))))
 ; what is found at a path of a well-formed document is well-formed
 (assert (forall ((d Seq_S_primitive_E) (p Str)) (! (=> (wfVal (VDoc d)) (wfVal (getPath d p)))
    :pattern ((getPath d p)))))
